@@ -86,6 +86,26 @@ Theorem C23_disposed_subscribe_fails :
 Proof. exact (fun A pynone react => disposed_subscribe_fails pynone KAsync react). Qed.
 Print Assumptions C23_disposed_subscribe_fails.
 
+
+(* a subscribed observer stays registered: on every call tree, an observer whose
+   wrapper is not stopped (it subscribed, has not unsubscribed, has received no
+   terminal) is in the observer list of a live subject -- i.e. in the snapshot
+   `self.observers.copy()` of the next emission *)
+Theorem C23_subscribed_observer_is_in_the_snapshot :
+  forall (A : Type) (pynone : A) (react : nat -> nat -> list (@op A)) (v0 : A) (top : list (@op A)) (fuel o : nat) os,
+    let c := run (async_cls pynone) react fuel (init_cfg v0 top) in
+    c_obs c o = Some os -> a_stopped os = false -> subject_live (c_st c) -> In o (observers (c_st c)).
+Proof. exact (fun A pynone react v0 => live_observer_registered pynone KAsync react v0). Qed.
+Print Assumptions C23_subscribed_observer_is_in_the_snapshot.
+
+(* completion hands [last value; completion] (or just completion) to every registered observer *)
+Theorem C23_completion_goes_to_the_snapshot :
+  forall (A : Type) (pynone : A) (s : @sstate A),
+    snd (c_completed (async_cls pynone) s) =
+    flat_map (fun o => map (IDeliver o) (if has_value s then [Next (value s); Done] else [Done])) (observers s).
+Proof. exact (@async_completed_snapshot). Qed.
+Print Assumptions C23_completion_goes_to_the_snapshot.
+
 (* ---- witnesses (pool ids: 0 = None, 1 = 0, 2 = False) ---- *)
 (* values None, 0, False are swallowed; completion hands False then completion
    to the current and to a later subscriber *)
